@@ -16,7 +16,7 @@ import (
 
 func init() {
 	p := Registry["C08"]
-	p.Roles["huge"] = Role{N: func(t string) int { return tierN(t, 3, 48) }, Case: c08Huge}
+	p.Roles["huge"] = Role{N: func(t string) int { return tierN(t, 3, 16) }, Case: c08Huge}
 	p.Rule += " Role huge: one committer writes one fresh token to ALL of 1100-3300 keys per transaction (commits far larger than any batch size inside the store) while 12-28 RepeatableRead/Serializable readers begin at scattered moments and read a sample of 40 keys twice: all keys of a snapshot carry one token, re-reads agree, and the token never goes backwards from one snapshot of a reader to its next."
 }
 
@@ -34,13 +34,16 @@ func c08Huge(tier string, seed int64, idx int, scratch string) rt.CaseResult {
 	nkeys := 1100 + rng.Intn(tierN(tier, 600, 2200))
 	keys := make([]string, nkeys)
 	for i := range keys {
+		if i%128 == 0 {
+			rt.Beat()
+		}
 		keys[i] = fmt.Sprintf("h%04d", i)
 		if err := env.DB.Set(ctxBg, keys[i], tokVal(keys[i], 0)); err != nil {
 			c.Violate("setup-write-failed", err.Error(), nil)
 			return c
 		}
 	}
-	rounds := tierN(tier, 3, 10)
+	rounds := tierN(tier, 3, 6)
 	readers := 12 + idx%3*8
 	var stop atomic.Bool
 	var mu sync.Mutex
@@ -118,7 +121,10 @@ func c08Huge(tier string, seed int64, idx int, scratch string) rt.CaseResult {
 			viol("begin-failed", err.Error())
 			break
 		}
-		for _, k := range keys {
+		for ki, k := range keys {
+			if ki%64 == 0 {
+				rt.Beat()
+			}
 			if err := tx.Set(ctxBg, k, tokVal(k, round)); err != nil {
 				viol("write-in-transaction-failed", err.Error())
 				break
